@@ -18,6 +18,7 @@ import (
 	"strconv"
 	"strings"
 	"sync"
+	"sync/atomic"
 	"syscall"
 	"time"
 
@@ -577,9 +578,29 @@ func supervise(prop string, e entry) {
 	}
 	cmd := exec.Command(os.Args[0], os.Args[1:]...)
 	cmd.Env = append(os.Environ(), "VCHECK_CHILD=1", "GOTRACEBACK=all")
-	cmd.Stdout = os.Stdout
+	// pass the child's stdout through, remembering whether it reported a violation
+	var sawViolation atomic.Bool
+	pr, pw, perr := os.Pipe()
+	if perr != nil {
+		fmt.Fprintln(os.Stderr, perr)
+		os.Exit(ExitBroken)
+	}
+	cmd.Stdout = pw
 	cmd.Stderr = errFile
 	cmd.SysProcAttr = &syscall.SysProcAttr{Setpgid: true}
+	copied := make(chan struct{})
+	go func() {
+		defer close(copied)
+		sc := bufio.NewScanner(pr)
+		sc.Buffer(make([]byte, 1<<20), 64<<20)
+		for sc.Scan() {
+			l := sc.Text()
+			if strings.HasPrefix(l, "VIOLATION property=") {
+				sawViolation.Store(true)
+			}
+			fmt.Println(l)
+		}
+	}()
 	if err := cmd.Start(); err != nil {
 		fmt.Fprintln(os.Stderr, err)
 		os.Exit(ExitBroken)
@@ -601,7 +622,17 @@ func supervise(prop string, e entry) {
 	}
 	// make sure no grandchild survives
 	_ = syscall.Kill(-cmd.Process.Pid, syscall.SIGKILL)
+	pw.Close()
+	select {
+	case <-copied:
+	case <-time.After(5 * time.Second):
+	}
 	errFile.Close()
+	if timedOut && sawViolation.Load() {
+		// the child had already witnessed and printed a violation before it got stuck
+		fmt.Printf("NOTE property=%s watchdog fired after %ds, after the violation(s) above were reported; stderr in %s\n", prop, wd, errPath)
+		os.Exit(ExitViolation)
+	}
 	if timedOut {
 		fmt.Printf("BROKEN-RUN property=%s watchdog fired after %ds (inconclusive, not a violation); stderr in %s\n", prop, wd, errPath)
 		os.Exit(ExitBroken)
